@@ -151,9 +151,13 @@ def run_case(ch, cfg, variant: bool, scratch):
         calls = []
 
         class CountingUpload:
+            """counts the calls; otherwise the library's handler (attributes included)"""
             async def handle_upload(self, request):
                 calls.append(net.now)
                 return await real.handle_upload(request)
+
+            def __getattr__(self, name):
+                return getattr(real, name)
         up = CountingUpload()
     else:
         up = None
